@@ -133,7 +133,8 @@ def analyse(unit, g, res):
                 label = f"{kind}@tpl:{o.get('line')}"
         failures.append({
             'id': f"{unit}.{ctx}.{label}", 'kind': kind, 'message': msg, 'where': where,
-            'gen_line': pl, 'rendered': d.get('rendered', '')[:3000],
+            'gen_line': pl, 'gen_col': (prim[0].get('column_start', 1) if prim else 1), 'rendered': d.get('rendered', '')[:3000],
+            'hint': bool(kind == 'assert' and 1 <= pl <= len(origins) and origins[pl - 1].get('o') == 'tpl'),
         })
     fn_results = {}
     smt_ms = 0
@@ -169,3 +170,67 @@ def scan_assumptions(g):
         if ASSUME_RX.search(code):
             out.append({'gen_line': k + 1, 'text': ln.strip()[:200]})
     return out
+
+
+def blank_hint_asserts(text, positions):
+    """Blank (keeping the line structure) the `assert ..;` / `assert .. by { .. }` statements of the generated text that
+    contain the given (line, col) positions: a proof hint that does not hold on the current text is dropped, the contract
+    clauses are then attempted without it. Returns (new_text, number_blanked)."""
+    from .rustsrc import lex, OPEN, CLOSE
+    toks = [t for t in lex(text) if t.kind not in ('comment', 'doc')]
+    line_starts = [0]
+    for i, c in enumerate(text):
+        if c == '\n':
+            line_starts.append(i + 1)
+    match = {}
+    stack = []
+    for i, t in enumerate(toks):
+        if t.kind == 'punct' and t.text in OPEN:
+            stack.append(i)
+        elif t.kind == 'punct' and t.text in CLOSE and stack:
+            match[stack.pop()] = i
+    spans = []
+    for (ln, col) in positions:
+        if not (1 <= ln <= len(line_starts)):
+            continue
+        off = line_starts[ln - 1] + max(0, col - 1)
+        # innermost `assert` statement whose extent contains off
+        best = None
+        for i, t in enumerate(toks):
+            if not (t.kind == 'ident' and t.text == 'assert') or t.s > off:
+                continue
+            # extent of the statement
+            j = i + 1
+            end = None
+            depth_guard = 0
+            while j < len(toks):
+                u = toks[j]
+                if u.kind == 'punct' and u.text in OPEN:
+                    if u.text == '{' and j > i + 1 and toks[j - 1].kind == 'ident' and toks[j - 1].text == 'by':
+                        end = toks[match[j]].e if j in match else None
+                        # optional trailing `;`
+                        k = match.get(j, j) + 1
+                        if k < len(toks) and toks[k].text == ';':
+                            end = toks[k].e
+                        break
+                    if j not in match:
+                        break
+                    j = match[j] + 1
+                    continue
+                if u.kind == 'punct' and u.text == ';':
+                    end = u.e
+                    break
+                if u.kind == 'punct' and u.text in CLOSE:
+                    break
+                j += 1
+            if end is not None and t.s <= off < end:
+                if best is None or t.s > best[0]:
+                    best = (t.s, end)
+        if best and best not in spans:
+            spans.append(best)
+    out = list(text)
+    for s0, e0 in spans:
+        for i in range(s0, e0):
+            if out[i] != '\n':
+                out[i] = ' '
+    return ''.join(out), len(spans)
